@@ -123,6 +123,32 @@ func init() {
 		e.hashAppend(IfRef(h), e.bseqOf(p))
 		return Tuple{SlLen(p), NilIface}, true
 	}
+	// context values: WithValue creates a fresh context object remembering its key and value (ghost)
+	goModels["context.Background"] = func(e *Exec, c *ssa.CallCommon, a []Val, in ssa.Instruction) (Val, bool) {
+		e.trust("context.Background / WithValue / Value: a context made by WithValue(parent, k, v) answers Value(k) with v (other keys: arbitrary)")
+		return MkIface(IntLit(e.P.symbolID("tid.context.backgroundCtx")), e.allocRef("ctx")), true
+	}
+	goModels["context.WithValue"] = func(e *Exec, c *ssa.CallCommon, a []Val, in ssa.Instruction) (Val, bool) {
+		e.trust("context.Background / WithValue / Value: a context made by WithValue(parent, k, v) answers Value(k) with v (other keys: arbitrary)")
+		r := e.allocRef("ctx")
+		e.heapSet("GH.ctxkey", Store(e.heapGet("GH.ctxkey", "(Array Int Iface)"), r, a[1].(*Term)))
+		e.heapSet("GH.ctxval", Store(e.heapGet("GH.ctxval", "(Array Int Iface)"), r, a[2].(*Term)))
+		return MkIface(IntLit(e.P.symbolID("tid.context.valueCtx")), r), true
+	}
+	goModels["(context.Context).Value"] = func(e *Exec, c *ssa.CallCommon, a []Val, in ssa.Instruction) (Val, bool) {
+		e.trust("context.Background / WithValue / Value: a context made by WithValue(parent, k, v) answers Value(k) with v (other keys: arbitrary)")
+		ref := IfRef(a[0].(*Term))
+		k := e.ghGet("GH.ctxkey", "(Array Int Iface)", ref)
+		v := e.ghGet("GH.ctxval", "(Array Int Iface)", ref)
+		other := e.vc.Fresh("ctxother", SIface)
+		// keys are compared as interface values: same dynamic type and (for string keys) equal strings
+		q := a[1].(*Term)
+		strTag := IntLit(typeID(types.Typ[types.String]))
+		bs := ArraySort(SInt, SStr)
+		bh := e.heapGet(boxHeapName(types.Typ[types.String]), bs)
+		keyEq := And(Eq(IfTag(k), IfTag(q)), Or(Eq(IfRef(k), IfRef(q)), And(Eq(IfTag(q), strTag), Eq(Select(bh, IfRef(k)), Select(bh, IfRef(q))))))
+		return e.vc.Define("ctxv", Ite(And(Eq(IfTag(a[0].(*Term)), IntLit(e.P.symbolID("tid.context.valueCtx"))), keyEq), v, other)), true
+	}
 	goModels["(hash.Hash).Size"] = func(e *Exec, c *ssa.CallCommon, a []Val, in ssa.Instruction) (Val, bool) {
 		return App("hsize", BV(64), IfRef(a[0].(*Term))), true
 	}
